@@ -697,7 +697,7 @@ let process_op_line (st: hstate ref) (line: string) ~(terminated: bool) =
       stat ("ops_" ^ !cur_coll);
       note_distinct op ans snap;
       let restore = (match !st with
-        | HKey (_, m, b) when forked -> let sm = !m and sb = !b in (fun () -> m := sm; b := sb)
+        | HKey (_, m, b) when forked -> let sm = !m and sb = !b and sa = !arena in (fun () -> m := sm; b := sb; arena := sa)
         | _ -> (fun () -> ())) in
       if starts_with "!" ans then coq_ok := false;
       if contains ans "!NONTERMINATING" then mismatch "HANG" ~impl:ans ~model:"the walk ends at the empty sentinel";
